@@ -130,6 +130,10 @@ class Core:
         if isinstance(v, It):
             if v.kind == "gen":
                 return v.parts[0]
+            if v.kind == "seq":
+                # an iterator object stored away (self.iter = iter(xs)): an unknown value about which nothing is assumed --
+                # every later operation on it has to go through a contract (safety obligations on it cannot be discharged)
+                return z3.Const(fresh_name("iterobj"), U.V)
             raise Unsupported(f"abstract iterable {v.kind} escapes")
         if v is None:
             return U.none
